@@ -162,6 +162,28 @@ def run_expression(col, tier):
             return not bad, "assembly/expression/_linear.py LinearForm.integrate: %s" % "; ".join(bad[:4])
         col.check("C02.O9", "Form linear grad, parallel=%s" % parallel, "ddot(grad v, P) assembles to the gradient linear array form with integrand P", chk_lin)
 
+    # ---- a field with more components than the cell has points (3 components on 2-point cells): the (point, component) pairs of test and
+    # trial field are numbered with the number of *components* as the stride, whatever the number of points per cell
+    v3 = micro.make_fields(it, [("Field", 3, 0)], ra, rb)[0]
+    fc3 = micro.container(it, [v3])
+    M3 = symarray("M3", (3, 3, nq, nc))
+    for i, k in itertools.product(range(3), repeat=2):
+        if i > k:
+            M3[i, k] = M3[k, i]
+
+    def weak_m3(vv, uu, **kw):
+        return npmodel.einsum("iqc,ikqc,kqc->qc", np.asarray(vv), M3, np.asarray(uu))
+
+    for parallel, sym_ in itertools.product((False, True), repeat=2):
+        def chk3(parallel=parallel, sym_=sym_):
+            form = it.call(it.call(Form, [], dict(v=fc3, u=fc3)), [[weak_m3]], {})
+            K = micro.dense(it.call_method(form, "assemble", [], dict(v=fc3, u=fc3, parallel=parallel, sym=sym_)))
+            want = ref_bilinear(ra, ra, 3, 3, lambda i, J, k, L, q, c: M3[i, k, q, c], False, False)
+            bad = diff_dense(K, want)
+            return not bad, "%s: %s" % (w, "; ".join(bad[:4]))
+        col.check("C02.O9", "Form bilinear value-value, 3 components on 2-point cells, parallel=%s sym=%s" % (parallel, sym_),
+                  "dot(v, M u) with a symmetric M assembles to the value-value array form with integrand M for every (parallel, sym) combination", chk3)
+
     # ---- mixed fields (u, p): three upper-triangle weak forms
     p_ = micro.make_fields(it, [("Field", 1, 1)], ra, rb)[0]
     fcm = micro.container(it, [micro.make_fields(it, [("Field", 2, 0)], ra, rb)[0], p_])
